@@ -356,3 +356,36 @@ fn cmp_accept_absent() {
     kani::cover!(true, "absent");
     core::mem::forget(map);
 }
+
+// ---- N3 (set semantics only, no header text): enable / is_enabled / is_empty / pop --------------------------------------
+#[kani::proof]
+#[kani::unwind(6)]
+#[kani::stub(alloc::fmt::format, fmt_stub)]
+fn cmp_enabled_set_core() {
+    let (e, r) = any_enabled();
+    let mut i = 0;
+    while i < 3 {
+        assert!(e.is_enabled(enc_of(i as u8)) == r.has(i), "C05: is_enabled disagrees with the enable() history");
+        i += 1;
+    }
+    assert!(e.is_empty() == (r.n == 0), "C05: is_empty disagrees with the enable() history");
+    let mut e2 = e;
+    let p = e2.pop();
+    match p {
+        None => assert!(r.n == 0),
+        Some(x) => {
+            assert!(r.n > 0 && idx_of(x) == r.order[r.n - 1], "C05: pop must remove the most recently enabled encoding");
+            assert!(!e2.is_enabled(x));
+            // the others stay enabled
+            let mut k = 0;
+            while k < 3 {
+                if k != idx_of(x) {
+                    assert!(e2.is_enabled(enc_of(k as u8)) == r.has(k));
+                }
+                k += 1;
+            }
+        }
+    }
+    kani::cover!(r.n == 3, "all three enabled");
+    kani::cover!(r.n == 0, "none enabled");
+}
